@@ -75,11 +75,14 @@ ReverseOne(ts, op) ==
       ELSE [ok |-> FALSE, t |-> ts]
   ELSE [ok |-> TRUE, t |-> ts]
 
-RECURSIVE ReverseAll(_,_)   \* last operation first
+RECURSIVE ReverseAll(_,_)   \* last operation first ("UNDO1": first operation first)
 ReverseAll(ts, ops) ==
   IF ops = <<>> THEN [ok |-> TRUE, t |-> ts]
-  ELSE LET r == ReverseOne(ts, ops[Len(ops)])
-       IN IF r.ok THEN ReverseAll(r.t, SubSeq(ops, 1, Len(ops) - 1)) ELSE r
+  ELSE IF "UNDO1" \in Dev
+       THEN LET r == ReverseOne(ts, ops[1])
+            IN IF r.ok THEN ReverseAll(r.t, Tail(ops)) ELSE r
+       ELSE LET r == ReverseOne(ts, ops[Len(ops)])
+            IN IF r.ok THEN ReverseAll(r.t, SubSeq(ops, 1, Len(ops) - 1)) ELSE r
 
 (* result: "true" | "false" | "error".  The boolean is `applied`: whether   *)
 (* any reversed operation was applied (false for a list of undo points).   *)
